@@ -19,6 +19,8 @@ from ..pipeline import Pipeline, Stage
 from ..rows import RowStore, package_stores
 from ..util import arg_of, assignments_to, calls, const_str, enclosing_stmt, same_block_before, zip_partner
 from ..values import Env, Val, texts
+from .. import stageclass
+from ..stageclass import _reverts_on_fresh_labels, _restores_saved_text
 from . import c07
 
 EXPLANATION = (
@@ -306,154 +308,30 @@ def rule_r2(ctx, pl: Pipeline) -> None:
 # ------------------------------------------------------------------------ R3
 
 
-def _store_class(ctx, pl: Pipeline, st: Stage, s: RowStore, mcs_key: Set[str]) -> str:
-    """UNSOLVED / FRESH-UNBALANCED / MAY-BE-SOLVED for a reaction-column store"""
-    solved = pl.solved_col.text
-    for a in s.atoms:
-        if a.kind == "truth" and a.op == "not" and solved in a.keys:
-            return "unsolved-only"
-        if a.kind == "haskey" and a.op == "in" and a.keys & mcs_key:
-            return "unsolved-only(mcs-key)"
-    labels = c07._label_lists(ctx, s.func)
-    for c, p in s.raw_guards:
-        for cc, pp in split_cond(c, p):
-            nc = normal_compare(cc, pp)
-            if nc is None:
-                continue
-            l, op, r = nc
-            for a, b in ((l, r), (r, l)):
-                if isinstance(a, ast.Subscript) and isinstance(a.value, ast.Name) and a.value.id in labels:
-                    lit = const_str(b)
-                    if op == "==" and lit is not None and lit != "Balance":
-                        return "fresh-unbalanced"
-    # backward slice through filter_data(..., unbalance_values=[... no 'Balance' ...])
-    if _slice_excludes_balance(ctx, s):
-        return "fresh-unbalanced(slice)"
-    return "may-be-solved"
-
-
-def _slice_excludes_balance(ctx, s: RowStore) -> bool:
-    """The rows written are drawn (through local def-use) from a
-    ``filter_data(..., unbalance_values=[..])`` selection without 'Balance'
-    computed from labels of this very call."""
-    f = s.func
-    # find the loop whose variable provides the id / element
-    loop = None
-    cur = getattr(s.node, "_parent", None)
-    while cur is not None and cur is not f.node:
-        if isinstance(cur, ast.For):
-            loop = cur
-            break
-        cur = getattr(cur, "_parent", None)
-    if loop is None or not isinstance(loop.iter, ast.Name):
-        return False
-    seen, work = set(), [loop.iter.id]
-    found_filter = False
-    while work:
-        name = work.pop()
-        if name in seen:
-            continue
-        seen.add(name)
-        for stmt, v, idx in assignments_to(f, name):
-            for c in ast.walk(v):
-                if isinstance(c, ast.Call):
-                    for k in c.keywords:
-                        if k.arg == "unbalance_values":
-                            lits = c07._str_consts(k.value)
-                            if lits is not None and "Balance" not in lits:
-                                found_filter = True
-                            else:
-                                return False
-            for nm in ast.walk(v):
-                if isinstance(nm, ast.Name):
-                    work.append(nm.id)
-                elif isinstance(nm, ast.Attribute) and isinstance(nm.value, ast.Name):
-                    work.append(nm.value.id)
-        if found_filter:
-            # the selection must be the only source: no union with unfiltered rows on the way
-            return True
-    return False
-
-
 def rule_r3(ctx, pl: Pipeline) -> None:
     ctx.rule("C01-R3", "a stage that rewrites the reaction of possibly-solved rows is guarded by a verdict on the written value or followed by validator + fresh-label revert/demotion", 5)
-    reaction = pl.reaction_col
     bal = ctx.balancer
-    mcs_key = texts(bal.get("__mcs_data_col"))
     unb_keys = texts(bal.get("__unbalance_col"))
     carbon_keys = texts(bal.get("__carbon_balance_col"))
-    # first validator stage: before it nothing is solved
-    first_val = next((s.index for s in pl.stages if s.callee.qualname == VALIDATOR_CHECK), None)
-    ctx.require(first_val is not None, "no Validator.check stage in __run_pipeline")
-    # the MCS key is only ever set on unsolved rows
-    for st in pl.stages:
-        for s in st.stores:
-            if s.keytexts & mcs_key and s.kind == "assign":
-                unsolved = any(a.kind == "truth" and a.op == "not" and pl.solved_col.text in a.keys for a in s.atoms)
-                by_map = _index_from_unsolved_map(ctx, s, pl)
-                ok = unsolved or by_map
-                ctx.instance("C01-R3", "MCS key store %s under %s" % (s.where(), "not solved" if unsolved else ("id-map of unsolved rows" if by_map else "?")), s.where(), ok=ok)
-                if not ok:
-                    ctx.finding("C01-R3", "%s:mcs-key-on-solved" % s.func.qualname.split("synrbl.", 1)[-1], s.where(), "the MCS data key may be set on a solved row, so 'has MCS key' no longer implies 'was unsolved'")
-    # stores that restore a text saved right before an earlier stage overwrote it
-    restores = {}
-    for st_w in pl.stages:
-        for w in st_w.stores:
-            if reaction.text not in w.keytexts:
-                continue
-            for st_r in pl.stages:
-                if st_r.index <= st_w.index:
-                    continue
-                for r in st_r.stores:
-                    if reaction.text in r.keytexts and _reverts_on_fresh_labels(ctx, r, unb_keys, carbon_keys) and _restores_saved_text(ctx, pl, st_w, w, st_r, r):
-                        restores[id(r.node)] = st_w.index
-    for st in pl.stages:
-        if st.index < first_val:
+    for s, ok, how in stageclass.mcs_key_only_on_unsolved(ctx, pl):
+        ctx.instance("C01-R3", "MCS key store %s under %s" % (s.where(), how), s.where(), ok=ok)
+        if not ok:
+            ctx.finding("C01-R3", "%s:mcs-key-on-solved" % s.func.qualname.split("synrbl.", 1)[-1], s.where(), "the MCS data key may be set on a solved row, so 'has MCS key' no longer implies 'was unsolved'")
+    for w in stageclass.classify(ctx, pl):
+        st, s = w.stage, w.store
+        if w.klass not in ("solved-not-input-balanced", "unguarded"):
+            ctx.instance("C01-R3", "stage %d %s: %s [%s]" % (st.index, st.label, s.where(), w.klass), s.where(), ok=True, klass=w.klass)
             continue
-        for s in st.stores:
-            if reaction.text not in s.keytexts:
-                continue
-            cls = _store_class(ctx, pl, st, s, mcs_key)
-            if cls == "may-be-solved" and id(s.node) in restores:
-                cls = "restores-text-validated-before-stage-%d" % restores[id(s.node)]
-            cname = "%s->%s" % (s.func.qualname.split("synrbl.", 1)[-1].replace("balancing.", ""), "reaction")
-            if cls != "may-be-solved":
-                ctx.instance("C01-R3", "stage %d %s: %s [%s]" % (st.index, st.label, s.where(), cls), s.where(), ok=True, klass=cls)
-                continue
-            # needs an accepted repair
-            ok, how = _validated_write(ctx, pl, st, s, unb_keys, carbon_keys)
-            ctx.instance("C01-R3", "stage %d %s: %s [may-be-solved] %s" % (st.index, st.label, s.where(), how), s.where(), ok=ok, klass=cls)
-            if not ok:
-                ctx.finding(
-                    "C01-R3",
-                    cname,
-                    s.where(),
-                    "stage %d (%s) replaces the reaction of rows that may already be solved, and %s" % (st.index, st.label, how),
-                    path="__run_pipeline: stage %d %s -> ... -> return" % (st.index, st.label),
-                )
-
-
-def _index_from_unsolved_map(ctx, s: RowStore, pl: Pipeline) -> bool:
-    """reactions[_idx][...] where _idx = M[...] and M is filled only under ``not solved``"""
-    e = s.elem_expr
-    if not (isinstance(e, ast.Subscript) and isinstance(e.slice, ast.Name)):
-        return False
-    f = s.func
-    for _, v, _i in assignments_to(f, e.slice.id):
-        if isinstance(v, ast.Subscript) and isinstance(v.value, ast.Name):
-            mname = v.value.id
-            cfg = CFG(f.node)
-            fills = [n for n in own_nodes(f.node) if isinstance(n, ast.Assign) and any(isinstance(t, ast.Subscript) and isinstance(t.value, ast.Name) and t.value.id == mname for t in n.targets)]
-            if not fills:
-                return False
-            okall = True
-            for n in fills:
-                g = cfg.guards(cfg.node_of(n))
-                txt = [unparse(c) for c, p in g if not p] + ["not " + unparse(c.operand) for c, p in g if p and isinstance(c, ast.UnaryOp)]
-                if not any("solved" in t for t in txt):
-                    okall = False
-            return okall
-    return False
+        ok, how = _validated_write(ctx, pl, st, s, unb_keys, carbon_keys)
+        ctx.instance("C01-R3", "stage %d %s: %s [%s] %s" % (st.index, st.label, s.where(), w.klass, how), s.where(), ok=ok, klass=w.klass)
+        if not ok:
+            ctx.finding(
+                "C01-R3",
+                w.construct,
+                s.where(),
+                "stage %d (%s) replaces the reaction of rows that may already be solved, and %s" % (st.index, st.label, how),
+                path="__run_pipeline: stage %d %s -> ... -> return" % (st.index, st.label),
+            )
 
 
 def _validated_write(ctx, pl: Pipeline, st: Stage, s: RowStore, unb_keys, carbon_keys) -> Tuple[bool, str]:
@@ -504,102 +382,6 @@ def _validated_write(ctx, pl: Pipeline, st: Stage, s: RowStore, unb_keys, carbon
         "the only later validator pass (stage %d) guards both promotion and revert with `not solved`, so an unbalanced replacement stays solved"
         % val_idx
     )
-
-
-def _reverts_on_fresh_labels(ctx, ss: RowStore, unb_keys, carbon_keys) -> bool:
-    """Guard of the store == not (label == 'Balance' and carbon == 'balanced'),
-    decided by a truth table over the two literals (other atoms must be absent)."""
-    f = ss.func
-    flow_elem = set()
-    if isinstance(ss.elem_expr, ast.Name):
-        flow_elem.add(ss.elem_expr.id)
-
-    def lit(e: ast.AST) -> Optional[Tuple[str, bool]]:
-        """('L1'|'L2', positive?) if e is a comparison of the row's label with its balanced value"""
-        nc = normal_compare(e, True)
-        if nc is None:
-            return None
-        l, op, r = nc
-        for a, b in ((l, r), (r, l)):
-            if isinstance(a, ast.Subscript) and const_str(b) is not None:
-                keys = texts(ctx.ev.eval(a.slice, ss.env))
-                if keys & unb_keys and const_str(b) == "Balance" and op in ("==", "!="):
-                    return "L1", op == "=="
-                if keys & carbon_keys and const_str(b) == "balanced" and op in ("==", "!="):
-                    return "L2", op == "=="
-        return None
-
-    def ev(e: ast.AST, env: Dict[str, bool]) -> Optional[bool]:
-        if isinstance(e, ast.BoolOp):
-            vals = [ev(x, env) for x in e.values]
-            if any(v is None for v in vals):
-                return None
-            return all(vals) if isinstance(e.op, ast.And) else any(vals)
-        if isinstance(e, ast.UnaryOp) and isinstance(e.op, ast.Not):
-            v = ev(e.operand, env)
-            return None if v is None else (not v)
-        l = lit(e)
-        if l is None:
-            return None
-        name, pos = l
-        return env[name] if pos else (not env[name])
-
-    if not ss.raw_guards:
-        return False
-    for L1 in (True, False):
-        for L2 in (True, False):
-            env = {"L1": L1, "L2": L2}
-            g = True
-            for c, p in ss.raw_guards:
-                v = ev(c, env)
-                if v is None:
-                    return False
-                g = g and (v if p else (not v))
-            if g != (not (L1 and L2)):
-                return False
-    return True
-
-
-def _restores_saved_text(ctx, pl: Pipeline, st_w: Stage, w: RowStore, st_r: Stage, r: RowStore) -> bool:
-    """The value restored by ``r`` was read from the reaction column right
-    before ``w`` overwrote it, and travels W -> R through the pipeline."""
-    fw = w.func
-    wstmt = enclosing_stmt(w.node)
-    saved_name = None
-    # save statement: D[idx] = <same element>[reaction_col], same block, before the store
-    for n in own_nodes(fw.node):
-        if isinstance(n, ast.Assign) and len(n.targets) == 1 and isinstance(n.targets[0], ast.Subscript) and isinstance(n.targets[0].value, ast.Name):
-            v = n.value
-            if isinstance(v, ast.Subscript) and w.target is not None and unparse(v.value) == unparse(w.target.value):
-                keys = texts(ctx.ev.eval(v.slice, w.env))
-                if pl.reaction_col.text in keys and same_block_before(n, wstmt):
-                    saved_name = n.targets[0].value.id
-    if saved_name is None:
-        return False
-    # W returns the save container
-    rets = [x for x in own_nodes(fw.node) if isinstance(x, ast.Return)]
-    if not rets or not all(isinstance(x.value, ast.Name) and x.value.id == saved_name for x in rets):
-        return False
-    # pipeline: name bound from W's call is passed to R
-    if not isinstance(st_w.stmt, ast.Assign) or not isinstance(st_w.stmt.targets[0], ast.Name):
-        return False
-    passed = st_w.stmt.targets[0].id
-    if not any(isinstance(a, ast.Name) and a.id == passed for a in list(st_r.call.args) + [k.value for k in st_r.call.keywords]):
-        return False
-    # R stores the saved value: its value is the loop variable iterating that parameter's items
-    fr = r.func
-    params = fr.params[1:] if (fr.cls is not None and not fr.is_static) else fr.params
-    pidx = [i for i, a in enumerate(st_r.call.args) if isinstance(a, ast.Name) and a.id == passed]
-    if not pidx or pidx[0] >= len(params):
-        return False
-    pname = params[pidx[0]]
-    if not isinstance(r.value, ast.Name):
-        return False
-    for n in own_nodes(fr.node):
-        if isinstance(n, ast.For) and pname in {x.id for x in ast.walk(n.iter) if isinstance(x, ast.Name)}:
-            if r.value.id in {x.id for x in ast.walk(n.target) if isinstance(x, ast.Name)}:
-                return True
-    return False
 
 
 # ------------------------------------------------------------------------ R4
